@@ -102,6 +102,7 @@ func runC01(c *Ctx, r *Rec) {
 	}
 	info := c.info("collection")
 
+	shapeLints(c, r, append(fileFuncs(c, "collection", arr, lst, arrClass, lstClass), moduleFuncsReturning(c, "ArrayLike", "ListLike")...))
 	checkReceiverWrites(c, r, "D4-receiver-writes-persist", lst)
 	checkResetCompleteness(c, r, "D4-reset-complete", lst)
 	checkReadersWriteNothing(c, r, "D4-readers-write-nothing", lst)
